@@ -7,6 +7,8 @@
                        "the bytes are the content" is wanted there is an explicit collision disjunct or hypothesis.
      response          what a service does with a request: Resp status declared-length body cut | ConnErr.
      transport         the net/http rule (trusted base): stream the client sees = bytes + how it ends (TEOF | TUEOF).
+     sized n st        the sizeCheckingReader of fix F25 around the body: at most n bytes, ending in TSIZE
+                       (ErrBlockSizeMismatch, EBadSize) when the body is longer than n or ends early with a clean EOF.
      hcr, hcr_read/_read_all/_read_full/_write_to/_close   HashCheckingReader over such a stream.
      get_or_head oracle retries order loc   the retry loop of getOrHead("GET"); oracle : service -> round -> response.
      fetch_entry, cache, cache_get, entry_read_at          BlockCache.Get / ReadAt.
@@ -15,17 +17,16 @@
      spec_b            the judge of the implementation's observed results = ops_ok (results against the content the
                        locator stands for, for blocks whose locator is consistent with a content) && notfound_ok &&
                        ops_loc_ok (results against the LOCATOR alone: digest and size hint, for every block whatever
-                       its locator says; the length clauses are conditional on declared_only / loc_guard, functions of
-                       the case input: "every scripted 200 answer of the block declares a Content-Length").
+                       its locator says and whatever the answers declare) && the error-class clause.
      spec_b (cont.)    ... && (ob_sync implies ops_err_ok): the error class of every failed Get/ReadAt against the answers
                        the services gave to the requests of that very operation (ob_nreq cuts ob_log into one segment
                        per operation; the answer of log entry (block, service, attempt) is the script's entry), guarded by
                        nodupb (b_order ..).  answers, last_of, has404, last404, last_retry, class_ok: model/C03_run.v.
-     declared_only bl  no scripted answer of bl is a 200 without Content-Length.
      loc_guard i bl    bl's locator does not take the empty-block short cut, and every block of the case with the same
-                       hash (= cache key) has the same locator and is declared_only. *)
+                       hash (= cache key) carries the same size hint and does not take the short cut either (the cache
+                       is keyed by the hash alone: data fetched through another locator has THAT locator's size). *)
 From Coq Require Import Arith NArith List String Bool.
-From AV Require Import lib.Str model.C03_model model.C03_run proofs.C03_proofs proofs.C03_run_proofs proofs.C03_err_proofs proofs.C03_spec proofs.C03_loc_proofs.
+From AV Require Import lib.Str model.C03_model model.C03_old_model model.C03_run proofs.C03_proofs proofs.C03_run_proofs proofs.C03_err_proofs proofs.C03_spec proofs.C03_loc_proofs.
 Import ListNotations.
 Local Open Scope nat_scope.
 
@@ -37,23 +38,30 @@ Theorem C03_transport_rule : forall n body cut,
 Proof. exact transport_rule. Qed.
 Print Assumptions C03_transport_rule.
 
+(* the size check of the reader returned by Get (fix F25), as modelled: a stream that still ends in a clean EOF has
+   exactly the expected size and is unchanged *)
+Theorem C03_sized_reader_rule : forall n st,
+  s_term (sized n st) = TEOF -> slen (s_bytes (sized n st)) = n /\ sized n st = st.
+Proof. exact sized_eof_len. Qed.
+Print Assumptions C03_sized_reader_rule.
+
 (* Streaming Get: if a full read of the reader returned by Get ends in EOF, the bytes have the locator's
-   digest, the announced size is the locator's size hint, the bytes have that size whenever the response declared
-   a length, and for any content c with that digest the bytes are c — or (bytes, c) is an explicit collision. *)
+   digest, the announced size is the locator's size hint, the bytes have the announced size (whatever the response
+   declared), and for any content c with that digest the bytes are c — or (bytes, c) is an explicit collision. *)
 Theorem C03_get_stream_sound : forall H oracle retries order loc x rd size st lg b,
   get_or_head oracle retries order loc = {| g_res := GOk x rd size st; g_log := lg |} ->
   hcr_read_all H (fresh st (loc_hash loc)) = (b, EEOF) ->
   H b = loc_hash loc /\
   (forall e, size_hint loc = Some e -> size = e) /\
-  (forall n body cut, oracle x rd = Resp 200 (Some n) body cut -> slen b = size) /\
+  slen b = size /\
   (forall c, H c = loc_hash loc -> b = c \/ (b <> c /\ H b = H c)).
 Proof. exact get_stream_sound. Qed.
 Print Assumptions C03_get_stream_sound.
 
-(* the reader of a successful Get is over the transported body of a 200 answer of one of the services *)
+(* the reader of a successful Get is over the size-checked transported body of a 200 answer of one of the services *)
 Theorem C03_get_reads_a_200_answer : forall oracle retries order loc x rd size st lg,
   get_or_head oracle retries order loc = {| g_res := GOk x rd size st; g_log := lg |} ->
-  exists declared body cut, oracle x rd = Resp 200 declared body cut /\ st = transport declared body cut /\
+  exists declared body cut, oracle x rd = Resp 200 declared body cut /\ st = sized size (transport declared body cut) /\
     (forall n, declared = Some n -> n = size) /\ (forall e, size_hint loc = Some e -> e = size) /\
     (size_hint loc = None -> declared <> None).
 Proof. exact get_or_head_ok. Qed.
@@ -68,10 +76,10 @@ Theorem C03_writeto_close_sound : forall H st check,
 Proof. exact writeto_close_sound. Qed.
 Print Assumptions C03_writeto_close_sound.
 
-(* every other server behaviour — a stream cut short, or any stream whose digest is not the expected one (flipped,
-   short, long, wrong length) — ends in a non-EOF error at Read, WriteTo and Close *)
+(* every other server behaviour — a stream cut short or of the wrong size, or any stream whose digest is not the
+   expected one (flipped, short, long) — ends in a non-EOF error at Read, WriteTo and Close *)
 Theorem C03_bad_stream_rejected : forall H st check,
-  s_term st = TUEOF \/ H (s_bytes st) <> check ->
+  s_term st <> TEOF \/ H (s_bytes st) <> check ->
   snd (hcr_read_all H (fresh st check)) <> EEOF /\ snd (hcr_write_to H (fresh st check)) <> ENil /\
   hcr_close H (fresh st check) <> ENil.
 Proof. exact bad_stream_rejected. Qed.
@@ -162,15 +170,15 @@ Proof. exact model_meets_spec. Qed.
 Print Assumptions C03_model_meets_spec.
 
 (* The locator clauses need no hypothesis at all: whatever the blocks are (size hints that disagree with every
-   answer, locators whose hash is no content's digest, an arbitrary digest table, arbitrary scripts, block indices
-   out of range), every result of the model's run satisfies loc_ok — delivered data has the MD5 and the size that
+   answer, locators whose hash is no content's digest, an arbitrary digest table, arbitrary scripts with or without
+   declared lengths, block indices out of range), every result of the model's run satisfies loc_ok — delivered data has the MD5 and the size that
    appear in the locator, or the read ends in an error. *)
 Theorem C03_model_respects_locator_size : forall i, ops_loc_ok i (i_ops i) (fst (run_model i)) = true.
 Proof. exact model_loc_ok. Qed.
 Print Assumptions C03_model_respects_locator_size.
 
-(* ... and the cache invariant behind it: after any session, a data entry under a key that is used with one
-   locator only, all of whose 200 answers declare their length, has that locator's digest and size *)
+(* ... and the cache invariant behind it: after any session, a data entry under a key that is used with one size
+   hint only (and with no empty-block locator) has that locator's digest and size *)
 Theorem C03_cache_holds_locator_size : forall i bl d,
   loc_guard i bl = true -> lookup (cs_cache (snd (run_model i))) (loc_hash (b_loc bl)) = Some (EData d) ->
   H_of i d = loc_hash (b_loc bl) /\ (forall n, size_hint (b_loc bl) = Some n -> slen d = n).
@@ -181,7 +189,7 @@ Print Assumptions C03_cache_holds_locator_size.
    OpSpec = per operation "a read that reports success returned exactly the content's bytes, Close agrees with the
    read, the announced size is the locator's" (consistent blocks); NotFoundSpec = all-404 gives BlockNotFound;
    LocSpec = per operation, for any block: announced size = size hint, a complete successful read has the locator's
-   digest and (DeclaredOnly) the locator's size, a successful cached read (LocGuard) lies inside the locator's size,
+   digest and the locator's size, a successful cached read (LocGuard) lies inside the locator's size,
    has the length of the requested slice, and has the locator's digest when it covers the whole block;
    OpsErrSpec = per operation (request log cut by ob_nreq) ErrSpec = ClassSpec of the operation's error against the
    answers to its own requests (judged when the harness could attribute the requests: ob_sync) *)
@@ -246,14 +254,12 @@ Proof. exact error_class_example. Qed.
 Print Assumptions C03_error_class_example.
 
 (* what the locator clauses demand of a streaming Get whose ReadAll ended in EOF, spelled out: the bytes have the
-   locator's digest; the announced size is the size hint; and when every scripted 200 answer of the block declares
-   a length, the number of bytes delivered is the size hint *)
+   locator's digest; the announced size and the number of bytes delivered are the size hint *)
 Theorem C03_spec_get_readall_meaning : forall i b size srv bytes cerr,
   empty_block_loc (b_loc (blk_of i b)) = false ->
   loc_ok i (OGet b MReadAll) (RGet ENil size srv bytes EEOF cerr) = true ->
   H_of i bytes = loc_hash (b_loc (blk_of i b)) /\
-  (forall n, size_hint (b_loc (blk_of i b)) = Some n ->
-     size = n /\ (declared_only (blk_of i b) = true -> slen bytes = n)).
+  (forall n, size_hint (b_loc (blk_of i b)) = Some n -> size = n /\ slen bytes = n).
 Proof. exact spec_get_readall_meaning. Qed.
 Print Assumptions C03_spec_get_readall_meaning.
 
@@ -265,28 +271,53 @@ Theorem C03_spec_readat_locator_meaning : forall i b k off bytes n,
 Proof. exact spec_readat_loc_meaning. Qed.
 Print Assumptions C03_spec_readat_locator_meaning.
 
-(* THE GAP (faithful to the code).  The length clause does NOT hold without the declared-length condition: when a
-   service answers 200 without Content-Length, getOrHead has nothing to compare the size hint with and the
-   HashCheckingReader verifies the digest only.  Witness: one service answering with the chunked body "foo";
-   Get of "acbd18db4cc2f85cedef654fccc4a4d8+5" (md5 of "foo", size hint 5) announces size 5 and its ReadAll delivers
-   the 3 bytes "foo" with a clean EOF and a successful Close. *)
-Theorem C03_chunked_wrong_size_delivered_refuted :
-  ~ (forall i b size srv bytes cerr n,
-       i_ops i = [OGet b MReadAll] -> fst (run_model i) = [RGet ENil size srv bytes EEOF cerr] ->
-       size_hint (b_loc (blk_of i b)) = Some n -> slen bytes = n).
-Proof. exact length_clause_needs_declared_length. Qed.
-Print Assumptions C03_chunked_wrong_size_delivered_refuted.
+(* Every successful delivery has the expected size — for EVERY kind of answer (fix F25): one call of
+   getOrHead("GET"), any oracle; ReadAll ending in EOF, WriteTo returning nil, Close returning nil, a partial read
+   confirmed by Close, and the block cache's fetch *)
+Theorem C03_get_delivers_hint_bytes : forall H oracle retries order loc x rd size st lg,
+  get_or_head oracle retries order loc = {| g_res := GOk x rd size st; g_log := lg |} ->
+  (forall n, size_hint loc = Some n -> size = n) /\
+  (forall b, hcr_read_all H (fresh st (loc_hash loc)) = (b, EEOF) -> slen b = size /\ H b = loc_hash loc) /\
+  (forall b, hcr_write_to H (fresh st (loc_hash loc)) = (b, ENil) -> slen b = size /\ H b = loc_hash loc) /\
+  (hcr_close H (fresh st (loc_hash loc)) = ENil -> slen (s_bytes st) = size) /\
+  (forall k b r', hcr_read_full H (fresh st (loc_hash loc)) k = (b, ENil, r') -> hcr_close H r' = ENil -> k <= size /\ slen b = k) /\
+  (forall d, fetch_entry H loc (GOk x rd size st) = EData d -> slen d = size /\ H d = loc_hash loc).
+Proof. exact get_delivers_hint_bytes. Qed.
+Print Assumptions C03_get_delivers_hint_bytes.
 
-(* the witness itself, and its cached counterpart: for "acbd18db4cc2f85cedef654fccc4a4d8+2" the cache keeps the
-   first 2 bytes of the verified 3-byte stream and serves "fo" as a successful read of the whole block *)
-Theorem C03_chunked_wrong_size_witness :
-  (declared_only (ex_chunked_block "5") = false /\ size_hint (b_loc (ex_chunked_block "5")) = Some 5 /\
-   fst (run_model (ex_chunked_in "5" (OGet 0 MReadAll))) = [RGet ENil 5 0 "foo" EEOF ENil]) /\
-  (declared_only (ex_chunked_block "2") = false /\ size_hint (b_loc (ex_chunked_block "2")) = Some 2 /\
-   fst (run_model (ex_chunked_in "2" (OReadAt 0 8 0))) = [RRead "fo" ENil] /\
-   H_of (ex_chunked_in "2" (OReadAt 0 8 0)) "fo" <> loc_hash (b_loc (ex_chunked_block "2"))).
-Proof. exact chunked_wrong_size_delivered. Qed.
-Print Assumptions C03_chunked_wrong_size_witness.
+(* the answers of finding F25 in the model of the fixed code: one service answering with the chunked body "foo";
+   reads through "acbd18db4cc2f85cedef654fccc4a4d8+5" / "+2" end in the size error (after 3 / 2 bytes), the cache keeps
+   nothing; "+3" is served *)
+Theorem C03_chunked_wrong_size_rejected :
+  fst (run_model (ex_chunked_in "5" (OGet 0 MReadAll))) = [RGet ENil 5 0 "foo" EBadSize EBadSize] /\
+  fst (run_model (ex_chunked_in "2" (OGet 0 MReadAll))) = [RGet ENil 2 0 "fo" EBadSize EBadSize] /\
+  fst (run_model (ex_chunked_in "5" (OReadAt 0 8 0))) = [RRead "" EBadSize] /\
+  fst (run_model (ex_chunked_in "2" (OReadAt 0 8 0))) = [RRead "" EBadSize] /\
+  fst (run_model (ex_chunked_in "3" (OReadAt 0 8 0))) = [RRead "foo" ENil].
+Proof. exact chunked_wrong_size_rejected. Qed.
+Print Assumptions C03_chunked_wrong_size_rejected.
+
+(* REGRESSION WITNESS (finding F25, fixed).  Of the GET loop as it was before the fix (model/C03_old_model.v: the
+   HashCheckingReader reads the response body itself) the statement "a ReadAll that ends in EOF delivers as many
+   bytes as Get announced" is false: a 200 answer without Content-Length was never compared with the size hint. *)
+Theorem C03_old_model_chunked_wrong_size_refuted :
+  ~ (forall H oracle retries order loc x rd size st lg b,
+       old_get_or_head oracle retries order loc = {| g_res := GOk x rd size st; g_log := lg |} ->
+       hcr_read_all H (fresh st (loc_hash loc)) = (b, EEOF) -> slen b = size).
+Proof. exact old_model_chunked_wrong_size. Qed.
+Print Assumptions C03_old_model_chunked_wrong_size_refuted.
+
+(* the witness: the old loop hands out the raw 3-byte stream for "...+5" (ReadAll = "foo", EOF) and lets the cache
+   keep "fo" for "...+2"; the model of the fixed code ends the same calls in the size error *)
+Theorem C03_old_model_chunked_wrong_size_witness :
+  g_res (old_get_or_head ex_chunked_oracle 0 [0] (ex_foo_hash ++ "+5")%string) = GOk 0 0 5 (transport None "foo" false) /\
+  hcr_read_all ex_H (fresh (transport None "foo" false) ex_foo_hash) = ("foo"%string, EEOF) /\
+  fetch_entry ex_H (ex_foo_hash ++ "+2")%string (g_res (old_get_or_head ex_chunked_oracle 0 [0] (ex_foo_hash ++ "+2")%string)) = EData "fo" /\
+  g_res (get_or_head ex_chunked_oracle 0 [0] (ex_foo_hash ++ "+5")%string) = GOk 0 0 5 {| s_bytes := "foo"; s_term := TSIZE |} /\
+  hcr_read_all ex_H (fresh {| s_bytes := "foo"; s_term := TSIZE |} ex_foo_hash) = ("foo"%string, EBadSize) /\
+  fetch_entry ex_H (ex_foo_hash ++ "+2")%string (g_res (get_or_head ex_chunked_oracle 0 [0] (ex_foo_hash ++ "+2")%string)) = EErr EBadSize.
+Proof. exact old_model_chunked_witness. Qed.
+Print Assumptions C03_old_model_chunked_wrong_size_witness.
 
 (* what the content clauses of spec_b demand of a successful cached read, spelled out *)
 Theorem C03_spec_readat_meaning : forall i b n off bytes,
